@@ -34,12 +34,14 @@ def declare(reg):
     S.declare_record('MemoKeyR', [('pos', 'int'), ('ruleinfo', 'RuleInfoR')])
     S.declare_record('RuleResultR', [('node', 'Val'), ('newpos', 'int')])
 
+    # what the memo tables hold: a rule result, a remembered failure (exception class + identity) or nothing
+    S.declare_union('Outcome', [('o_none', []), ('o_ok', [('res', 'RuleResultR')]), ('o_err', [('cls', 'int'), ('eid', 'int')])])
     S.declare_record('ConfigR', [
         ('left_recursion', 'bool'), ('memoization', 'bool'), ('prune_memos_on_cut', 'bool'), ('parseinfo', 'bool'),
         ('ignorecase', 'bool'), ('trace', 'bool'),
     ])
     reg.classes['MemoD'] = {
-        'mro': [], 'fields': {'mkeys': 'arr[MemoKeyR,bool]', 'mvals': 'arr[MemoKeyR,Val]'}, 'isa': ['dict'],
+        'mro': [], 'fields': {'mkeys': 'arr[MemoKeyR,bool]', 'mvals': 'arr[MemoKeyR,Outcome]'}, 'isa': ['dict'],
     }
     reg.classes['Ctx'] = {
         'mro': ['tatsu/contexts/context.py:ParseContext', 'tatsu/contexts/engine.py:ParserEngine',
@@ -60,6 +62,7 @@ def declare(reg):
         reg.opaque_attrs[('Tracer', m)] = ('method', 'NOOP')
     reg.exc_attrs.update({'pos': 'int'})
 
+    reg.record_field_kind = {('RuleInfoR', 'func'): 'func:PARSE', ('RuleInfoR', 'instance'): 'opaque:Model'}
     reg.import_consts = {'_AT_': 'tatsu/contexts/state.py'}
     reg.class_alias = {
         'ParseState': 'Frame', 'AST': 'ASTD', 'Alert': 'AlertR', 'RuleInfo': 'RuleInfoR',
